@@ -591,6 +591,70 @@ FEEL_CORPUS = [
 ]
 
 
+# Zeros of either sign and any exponent, produced by arithmetic (a negative zero cannot be written as a literal: it comes out of 0 * -1,
+# 0.00 / -5, decimal(-0.4, 0), ceiling(-0.5)).  Equal numbers compare equal (C02_cmp_eq_iff_value: the values read at a common exponent are the
+# same integer 0), in every construct that compares numbers.  All expressions are boolean-valued; the second component is the expected value.
+ZERO_CORPUS = [
+    ('(0 * -1) = 0', True), ('(0.00 / -5) = 0.0', True), ('decimal(-0.4, 0) = 0', True), ('ceiling(-0.5) = 0', True), ('-0.00 = 0', True),
+    ('(0 * -1) = (0.00 / -5)', True), ('(0 * -1) = 0 * 1', True), ('0 = (0 * -1)', True), ('0.000 = decimal(-0.4, 0)', True), ('(0 * -1) = 1', False),
+    ('(0 * -1) != 0', False), ('(0.00 / -5) != 0.0', False), ('decimal(-0.4, 0) != 0', False), ('(0 * -1) != 1', True),
+    ('(0 * -1) < 0', False), ('(0 * -1) <= 0', True), ('(0 * -1) > 0', False), ('(0 * -1) >= 0', True), ('0 < (0 * -1)', False), ('0 <= (0.00 / -5)', True),
+    ('(0 * -1) < 1', True), ('(0 * -1) > -1', True),
+    ('(0 * -1) in [0..0]', True), ('(0 * -1) in (0)', True), ('(0 * -1) in [0, 1]', True), ('(0 * -1) in (<= 0)', True), ('(0 * -1) in (< 0)', False),
+    ('(0 * -1) in (> 0)', False), ('(0 * -1) between 0 and 0', True), ('0 between (0 * -1) and (0 * -1)', True),
+    ('list contains([0], 0 * -1)', True), ('list contains([0 * -1], 0.000)', True), ('list contains([1, 0.00 / -5], 0)', True),
+    ('count(distinct values([0, 0 * -1])) = 1', True), ('count(distinct values([0, 0 * -1, 0.00 / -5, decimal(-0.4, 0), 0.0])) = 1', True),
+    ('count(index of([0, 1, 0.00 / -5], 0)) = 2', True), ('count(union([0], [0 * -1])) = 1', True),
+    ('[0 * -1] = [0]', True), ('{a: 0 * -1} = {a: 0}', True), ('(if (0 * -1) = 0 then 1 else 2) = 1', True), ('min([0, 0 * -1]) = 0', True),
+    ('max([0 * -1, 0]) = (0.00 / -5)', True), ('abs(0 * -1) = (0 * -1)', True), ('-(0 * -1) = (0 * -1)', True),
+]
+ZERO_OPERANDS = [(s, 0, e) for s in (False, True) for e in (-3, 0, 5)]
+ZERO_CONTROLS = [(False, 1, -3), (True, 1, -3)]
+REL = {'eq': lambda c: c == 0, 'lt': lambda c: c < 0, 'le': lambda c: c <= 0, 'gt': lambda c: c > 0, 'ge': lambda c: c >= 0, 'cmp': lambda c: c}
+
+
+def zero_family(ctx, hist):
+    """comparison of signed zeros: FEEL constructs on arithmetic-produced zeros; FeelNumber ==, partial_cmp, <, <=, >, >= on every pair of
+    {+0, -0} x exponents {-3, 0, 5} (and against +-0.001 as controls) vs the Coq model's dcmp (eq must agree with partial_cmp)"""
+    got = ctx.run_impl('feel', [{'e': e} for e, _ in ZERO_CORPUS])
+    for (e, want), g in zip(ZERO_CORPUS, got):
+        ctx.evaluations += 1
+        ctx.corr_checked += 1
+        hist['signed-zeros'] = hist.get('signed-zeros', 0) + 1
+        ctx.nontrivial.add(('zeros-feel', e))
+        val = g.get('v') if isinstance(g.get('v'), bool) else json.dumps(g)[:200]
+        if val != want:
+            ctx.violation('FEEL %s evaluates to %s, expected %s: zeros of either sign and any exponent are equal numbers' % (e, val, want),
+                          {'expression': e}, impl=val, model=want)
+    pairs = [(a, b) for a in ZERO_OPERANDS for b in ZERO_OPERANDS]
+    pairs += [(a, b) for a in ZERO_OPERANDS for b in ZERO_CONTROLS] + [(b, a) for a in ZERO_OPERANDS for b in ZERO_CONTROLS]
+    mres = ctx.run_model(HEADER, [coq_term('cmp', a, b) for a, b in pairs], shard_size=len(pairs))
+    reqs = [{'op': op, 'a': dtext(a), 'b': dtext(b)} for a, b in pairs for op in sorted(REL)]
+    impl = ctx.run_impl('num', reqs)
+    k = 0
+    for (a, b), m in zip(pairs, mres):
+        c = {'Lt': -1, 'Eq': 0, 'Gt': 1}[m.name]
+        if (a[1] == 0 and b[1] == 0) != (c == 0):
+            ctx.broken.append('model: dcmp %s %s = %s' % (dtext(a), dtext(b), m.name))
+        answers = {}
+        for op in sorted(REL):
+            req, g = reqs[k], impl[k]
+            k += 1
+            ctx.evaluations += 1
+            ctx.corr_checked += 1
+            hist['signed-zeros'] = hist.get('signed-zeros', 0) + 1
+            ctx.nontrivial.add(('zeros-api', op, a[0], b[0], a[1] == 0 and b[1] == 0))
+            val = g.get('r') if 'r' in g else json.dumps(g)[:200]
+            answers[op] = val
+            want = REL[op](c)
+            if val != want or isinstance(val, bool) != isinstance(want, bool):
+                ctx.violation('FeelNumber %s of %s and %s gives %s, the specification %s (comparison is by value: zeros of either sign and any exponent are equal)'
+                              % (op, dtext(a), dtext(b), val, want), req, impl=val, model=want)
+        if isinstance(answers.get('cmp'), int) and isinstance(answers.get('eq'), bool) and answers['eq'] != (answers['cmp'] == 0):
+            ctx.violation('FeelNumber == and partial_cmp disagree on %s and %s: eq=%s cmp=%s' % (dtext(a), dtext(b), answers['eq'], answers['cmp']),
+                          {'op': 'eq', 'a': dtext(a), 'b': dtext(b)}, impl=answers['eq'], model=(c == 0))
+
+
 def refresh_c_kernel():
     """cargo does not notice edits of feel-number/decnumber/*.c (the cc build script only declares environment variables as its inputs):
     when the C sources differ from the ones the harness was last built with, the build output of dmntk-feel-number is dropped."""
@@ -703,6 +767,7 @@ def run(ctx):
                 ctx.violation('%s %s gives %s, the correctly rounded result is %s' % (how, op, val, m), cs, impl=val, model=m)
         if len(ctx.samples) < 5 and cl in ('tie', 'subnormal', 'overflow-edge') and op != 'cmp':
             ctx.sample({'case': case, 'result': str(m)})
+    zero_family(ctx, hist)
     # ---------------------------------------------------------------- exp, ln, powers: validated within 2 ulp (not proved)
     tc = transcendental_cases(ctx)
     treqs = [{'op': op, 'a': dtext(a), 'b': dtext(b) if b else '0'} for op, a, b in tc]
@@ -758,7 +823,8 @@ def run(ctx):
     return ctx.finish(
         rule='operand tuples over (sign, coefficient of 1..34 digits, exponent -6176..6111) with dedicated classes (exact ties at the 34th digit, carries, '
              'cancellation, operands 34+ orders apart, subnormal products/quotients and ties on the subnormal grid, overflow edge, multiplication ties, '
-             'division, modulo, trailing zeros, decimal() ties, zeros with exponents); every operator through the FeelNumber API and, where the operands '
+             'division, modulo, trailing zeros, decimal() ties, zeros with exponents, zeros of either sign produced by arithmetic in every comparing construct '
+             '(= != < <= in between, list contains, distinct values, index of, union; FeelNumber == vs partial_cmp on all pairs)); every operator through the FeelNumber API and, where the operands '
              'have a FEEL literal, through parse+evaluate; model = IEEE specification evaluated in Coq, cross-checked with libmpdec; '
              'non-trivial = distinct (operator, class, zero operand, length class, null result)',
         extra_cov={'exhaustive': False, 'class_histogram': hist, 'worst_ulp_exp_ln_pow': str(worst.quantize(Decimal('0.001')) if worst else 0),
@@ -795,17 +861,28 @@ def replay(ctx, path):
 
 
 MANIFEST = dict(
-    technique='Coq proof about the IEEE decimal128 specification model (one correct rounding, value lemmas, comparison, integral functions) with model/code correspondence against the C kernel',
+    technique='Coq proof about the IEEE decimal128 specification model (every operation that rounds is THE correctly rounded exact result, stated by a predicate over the exact value with a uniqueness theorem; format, null-iff-overflow, comparison, integral functions) with model/code correspondence against the C kernel',
     text='The C arithmetic kernel (decNumber) is not transliterated: the model is the IEEE 754-2008 decimal128 specification (exact integer arithmetic, one rounding to '
-         '34 digits half-even, emax 6144, gradual underflow, clamp, overflow = null). Theorems (coq/Props/C02.v, closed under the global context) are about that '
-         'model; they include: every rounding result is a nearest decimal128, ties to even, and in format (C02_round34_nearest_even, C02_round34_in_format); '
-         'C02_results_in_format: for all operands in format every operator and method of the model that yields a number (+ - * / modulo, negation, abs, floor, ceiling, truncation, sqrt, '
-         'decimal(), integer powers, with the reduce-after-operation step) gives null or a datum with coefficient < 10^34 and exponent -6176..6111; C02_null_iff_overflow / C02_defined_iff_in_range: '
-         'the rounding step is null exactly when the exact value reaches (10^34 - 1/2) * 10^6111, so null is never returned for a result inside the range; '
-         'division and square root round the exact quotient / root once (C02_div_correctly_rounded: for every pair of finite decimals with non-zero coefficients the result of ddiv is the '
-         'nearest-even 34-digit (or subnormal-grid) rounding of the exact rational quotient, stated on integers by cross-multiplication 2|c*Y - X| <= Y at every common scale, via C02_div_sticky + '
-         'C02_div_drops_at_least_3; C02_sqrt_correctly_rounded: for every positive finite decimal the result of dsqrt is the nearest-even 34-digit '
-         'rounding of the exact square root, stated on integers with the squares of the half-way points, via C02_sqrt_sticky + C02_sqrt_root_digits >= 36 root digits; C02_sqrt_defined: never null on a datum). '
+         '34 digits half-even, emax 6144, gradual underflow, clamp, overflow = null). Theorems (coq/Props/C02.v, 50 obligations, closed under the global context) are about that '
+         'model. "Correctly rounded" is the predicate correctly_rounded x s o of coq/C02/Exact.v over the EXACT non-negative magnitude x (Quot X Y e = X/Y*10^e, or Root X e = '
+         'sqrt(X*10^e); every comparison of x with a decimal point n*10^k is an integer comparison by cross-multiplication, no reals, no rationals): o is null iff '
+         'x >= (10^34 - 1/2)*10^6111; otherwise o is a datum in format with sign s and value c*10^q, where q is the exponent fixed by the magnitude of x (the unique q >= -6176 with '
+         'x < 10^34*10^q and, unless q = -6176, 10^33*10^q <= x) and c is x/10^q rounded to the nearest integer, half-way cases to the even one (half-way points (10c-+5)*10^(q-1)). '
+         'The candidate set is fixed by x, not by the result: C02_correctly_rounded_unique, C02_rounds_to_unique, C02_quantum_unique, C02_nearest_even_unique prove that the predicate '
+         'determines the result (two results for the same x and s are both null or equal as numbers; the representation - trailing zeros, clamping - is left open, FEEL reduces). '
+         'Proved correctly rounded for ALL operands (any coefficient size, any exponent, zeros included): the rounding step every operation ends with (C02_round34_correctly_rounded), '
+         '* (C02_mul_correctly_rounded), integer powers (C02_pow_nat_), + - and the Spec modulo on the exact integer sum / difference / remainder (C02_add_, C02_sub_, C02_mod_), '
+         '/ on the exact rational quotient coef a / coef b * 10^(expo a - expo b) for every non-zero divisor (C02_div_correctly_rounded; via >= 36 computed quotient digits, '
+         'C02_div_quotient_digits, and a sticky digit), sqrt on the exact root for every non-negative operand (C02_sqrt_correctly_rounded; via C02_sqrt_root_digits), and the '
+         'reduce-after-operation step keeps a correct rounding correct (C02_reduce_correctly_rounded). C02_audit_counterexample: for a = 10^34-3, b = 1 the predicate accepts the exact '
+         'quotient and rejects 1E+34, which the earlier statement (bounding the quantum through the result coefficient) accepted. C02_round34_nearest_even: the same with the quantum '
+         'target_exp computed from the operands and the tie clause about the coefficient of the result. decimal(): C02_round_half_even (nearest multiple of 10^-scale, ties to even) + C02_decimal_in_format. '
+         'Null exactly when undefined or out of range: C02_div_null_iff (zero divisor or quotient at the threshold), C02_mod_null_iff, C02_sqrt_null_iff + C02_sqrt_defined (negative non-zero operand only), '
+         'C02_null_iff_overflow / C02_defined_iff_in_range and the * + instances. C02_results_in_format: for all operands in format every operator and method that yields a number '
+         '(+ - * / modulo, negation, abs, floor, ceiling, truncation, sqrt, decimal(), integer powers, with the reduce step) gives null or a datum with coefficient < 10^34 and exponent -6176..6111. '
+         'Comparison by value: C02_cmp_eq_iff_value (equal iff the values read at any common exponent are the same integer), trailing zeros, equivalence and order laws; floor / ceiling / exact remainder. '
+         'Not proved: exp, ln, inexact powers (validated within 2 ulp only); the stepwise modulo of the code differs from the Spec (known finding, C02_mod_steps_refuted). '
          'The tie to the code is the correspondence check: FeelNumber API and FEEL text on boundary-class operand tuples vs the model evaluated in Coq '
-         '(cross-checked with libmpdec); no-Infinity/NaN is evaluated directly on the implementation output. exp, ln and inexact powers: validated within 2 ulp only.',
-    note='Trusted: Coq kernel + vm_compute, the reading of IEEE 754-2008 in Base/DecRound.v, decNumber (sampled, not verified), libmpdec as second oracle, harness.')
+         '(cross-checked with libmpdec), a dedicated rounding family, and the comparison of zeros of either sign produced by arithmetic in every comparing construct; '
+         'no-Infinity/NaN is evaluated directly on the implementation output.',
+    note='Trusted: Coq kernel + vm_compute, the reading of IEEE 754-2008 in Base/DecRound.v and of "correctly rounded" in C02/Exact.v, decNumber (sampled, not verified), libmpdec as second oracle, harness.')
